@@ -20,19 +20,35 @@ def emit(name, text):
 
 
 def main():
+    """Prints one line `GEN <module> ok|FAILED <message>` per translator module (read by ./check);
+    a module that fails leaves its output file as it was (the last tables that did translate)."""
     os.makedirs(GEN, exist_ok=True)
     import importlib
     ok = True
     for mod in GENERATORS:
         try:
             importlib.import_module(mod).generate(REPO, emit)
+            print(f"GEN {mod} ok")
         except Exception as e:  # noqa
             ok = False
-            print(f"gen.py: {mod}: {type(e).__name__}: {e}", file=sys.stderr)
+            msg = f"{type(e).__name__}: {e}".replace("\n", " ")
+            print(f"GEN {mod} FAILED {msg}")
+            print(f"gen.py: {mod}: {msg}", file=sys.stderr)
     return 0 if ok else 1
 
 
 GENERATORS = ["gen_tokens", "gen_parser_loops", "gen_bp", "gen_literals", "gen_typeids"]
+
+# translator module -> the Lean modules it writes, and whether the facts it extracts are also
+# decided by the property's correspondence check (then a translator that can no longer read the
+# source falls back to the last translated tables and the correspondence alone ties model to code)
+OUTPUTS = {
+    "gen_tokens": (["CapyV.Generated.Tokens"], True),
+    "gen_parser_loops": (["CapyV.Generated.ParserLoops"], False),
+    "gen_bp": (["CapyV.Generated.BindingPowers"], True),
+    "gen_literals": (["CapyV.Generated.Escapes", "CapyV.Generated.IntLimits"], True),
+    "gen_typeids": (["CapyV.Generated.TypeIds"], True),
+}
 
 if __name__ == "__main__":
     sys.path.insert(0, os.path.dirname(os.path.abspath(__file__)))
